@@ -11,6 +11,7 @@ Not decided: selector arithmetic (steps, offsets, wrapping, leap days, Easter, I
 overlay of normal/additional/closed/fallback rules - values.
 """
 
+import json
 import re
 
 import common
@@ -301,6 +302,7 @@ def run(ctx, prog, res):
     rule_r8(prog, res)
     rule_r9(prog, res)
     rule_r10(prog, res)
+    rule_r11(prog, res)
 
 
 def _or_roots(f, op, names, depth=0):
@@ -417,3 +419,55 @@ def rule_r10(prog, res):
             r10.check(ok, {"fn": fn.id.split("::")[-1], "clamp": kind, "compared_with_opposite_clamp": True}, "C01.R10:%s:%s" % (kind, fn.module),
                       "%s clamps an impossible day %s and hands the result on without comparing it with the bound clamped the other way: for a range made of impossible days only (`Apr 31`, `Feb 30-31`, `Feb 29-30` out of leap years) the start lands after the end, and the pairing of bounds reads that as a range wrapping over the new year - open (nearly) all year" % (fn.id, kind), lib.where_of(fn, t))
     r10.floor(2)
+
+
+def rule_r11(prog, res):
+    r11 = res.rule("C01.R11", "time spans passing midnight continue on the following day: where two optional schedules of one day (what earlier rules gave / what this rule gives today / what it spills from yesterday) are merged with `Option::or` (the first wins, the second is dropped), the case where both exist is overlaid with Schedule::addition in a sibling branch - a spill is never dropped because something else exists that day")
+    SCHED = "opening_hours::schedule::Schedule"
+    roots = [f for f in (prog.fns.get("opening_hours::opening_hours::OpeningHours::<L>::schedule_at"), prog.fns.get("opening_hours::opening_hours::rule_sequence_schedule_at")) if f]
+    if len(roots) != 2:
+        r11.anchor_missing("schedule_at / rule_sequence_schedule_at")
+        return
+    n = 0
+    for fn in roots:
+        for fid in prog.with_closures(fn.id):
+            f = prog.fns[fid]
+            def src(op):
+                """The place an operand was loaded from, through single-definition copies."""
+                pl = lib.operand_place(op)
+                seen = set()
+                while pl is not None and not pl["p"] and pl["l"] not in seen:
+                    seen.add(pl["l"])
+                    defs = f.defs_of(pl["l"])
+                    if len(defs) != 1 or defs[0][1]["k"] != "assign" or defs[0][1]["rv"]["k"] != "use":
+                        break
+                    nxt = lib.operand_place(defs[0][1]["rv"]["op"])
+                    if nxt is None:
+                        break
+                    pl = nxt
+                return pl
+
+            def key(pl):
+                return None if pl is None else (pl["l"], json.dumps(pl["p"], sort_keys=True))
+
+            def payload_of(pl):
+                """`(X as Some).0` -> X"""
+                if pl is None or len(pl["p"]) < 2:
+                    return None
+                dc, fld = pl["p"][-2], pl["p"][-1]
+                if isinstance(dc, dict) and dc.get("dc") == "Some" and isinstance(fld, dict) and fld.get("f") == 0:
+                    return {"l": pl["l"], "p": pl["p"][:-2]}
+                return None
+
+            adds = [(key(payload_of(src(t["args"][0]))), key(payload_of(src(t["args"][1])))) for _, t in f.calls() if flow.call_name(t).endswith("Schedule::addition") and len(t["args"]) == 2]
+            for _, t in f.calls():
+                cal = t.get("callee") or {}
+                if cal.get("name") not in ("or", "or_else", "xor") or SCHED not in (cal.get("self_ty") or "") or "Option" not in (cal.get("self_ty") or ""):
+                    continue
+                n += 1
+                a, b = flow.shape(f, t["args"][0], depth=4), flow.shape(f, t["args"][1], depth=4)
+                ka, kb = key(src(t["args"][0])), key(src(t["args"][1]))
+                ok = ka is not None and kb is not None and (ka, kb) in adds
+                r11.check(ok, {"fn": f.id.split("::")[-1], "or_of": [a[-60:], b[-60:]], "both_present_overlaid_by": "Schedule::addition"}, "C01.R11:%s:%s" % (f.id.split("::")[-1], b[-80:]),
+                          "%s merges two optional schedules of a day with `%s` and no sibling branch overlays them when both exist: the second one (a spill from yesterday, or this rule's own contribution) is dropped whenever the first exists - e.g. `Su 10:00-12:00; Sa 22:00-02:00` is closed on Sunday 01:00" % (f.id, cal.get("name")), lib.where_of(f, t))
+    r11.check(n >= 2, {"optional_schedule_merges": n}, "C01.R11:FLOOR", "FLOOR: %d merges of optional day schedules found (expected the rule fold and today/yesterday)" % n)
